@@ -12,6 +12,11 @@ pub fn scenario(g: &mut G, ctx: &RunCtx) -> RunReport {
     let mut plan = bodyx::gen_plan(g, max);
     plan.faults.read_eintr.clear();
     plan.rereads = 0;
+    // the same exchange inside a TLS session (whichever back end this build has): one record per segment
+    if g.chance(1, 4) {
+        plan.tls = true;
+        g.probe("over-tls");
+    }
     // the streaming text reader (only drawn for ASCII payloads, where no character is ever incomplete)
     // is one more way to read the body: it must hand out what has arrived, too
     plan.read_timeout_ms = 3_600_000;
@@ -71,7 +76,7 @@ pub fn scenario(g: &mut G, ctx: &RunCtx) -> RunReport {
     let verdict = match &ran.observed {
         None => violation("hang", format!("run torn down: deadlock={} event_cap={}", ran.history.deadlock, ran.history.event_cap)),
         Some(Err(p)) => violation("panic", p.clone()),
-        Some(Ok(o)) => oracle(&plan, o, &ran.history, k),
+        Some(Ok(o)) => oracle(&plan, o, &ran.history, &ran.plain_out, k),
     };
     RunReport {
         verdict,
@@ -83,9 +88,10 @@ pub fn scenario(g: &mut G, ctx: &RunCtx) -> RunReport {
     }
 }
 
-fn oracle(plan: &BodyPlan, o: &Observed, h: &attosim::History, k: usize) -> Verdict {
+fn oracle(plan: &BodyPlan, o: &Observed, h: &attosim::History, plain_out: &[(u64, usize)], k: usize) -> Verdict {
     let head_len = plan.wire.head_len;
-    let Some(t_head) = bodyx::head_arrival(h, head_len) else {
+    let t_head = if plan.tls { bodyx::head_arrival_plain(plain_out, head_len) } else { bodyx::head_arrival(h, head_len) };
+    let Some(t_head) = t_head else {
         return violation("harness:head-not-delivered", "head never delivered");
     };
     if let Some(e) = &o.send_err {
@@ -97,7 +103,7 @@ fn oracle(plan: &BodyPlan, o: &Observed, h: &attosim::History, k: usize) -> Verd
             format!("send() returned at t={}ns but the blank line arrived at t={}ns", o.send_t.1, t_head),
         );
     }
-    let steps = bodyx::delivery_steps(h, head_len);
+    let steps = if plan.tls { bodyx::delivery_steps_plain(plain_out, head_len) } else { bodyx::delivery_steps(h, head_len) };
     let body = &plan.wire.bytes[head_len..k];
     // deliverable payload bytes and completeness after each delivery step
     let mut table: Vec<(u64, usize, bool)> = Vec::with_capacity(steps.len());
